@@ -51,7 +51,7 @@ from crosshair.util import (
     UnexploredPath,
 )
 
-REPO_SRC = os.path.realpath("/repo/src")
+REPO_SRC = os.path.realpath(os.environ.get("VERIF_REPO_SRC") or "/repo/src")
 
 # ---------------------------------------------------------------- solver statistics
 STATS = {"queries": 0, "solver_s": 0.0, "realizations": 0}
